@@ -577,7 +577,9 @@ func suiteC08(c *Ctx) []Suite {
 				m := genSMLMsg(c.R, item)
 				toks := msgTokens(c.R, m, i%2 == 0)
 				eolAfter := 0
-				if i%3 == 0 {
+				if i%3 == 0 && !strings.Contains(m.Name, `"`) {
+					// (a name with a double quote in it, moved into the item by the mutation, would open
+					// a string there: where it ends then depends on the line breaks, which is the grammar)
 					toks = mutateTokens(c.R, toks) // invalid messages too
 				}
 				if i%3 == 1 {
